@@ -1,8 +1,8 @@
 CONSTANTS HW = 7
           Margins = {1, 2, 3, 4, 5, 6}
-          Anchors = {1, 2}
+          Anchors = {1, 2, 3}
           NMax = 8
-          MCMod = 1
+          MCMod = 3
           GenMod = 1
           TPad = 3
 INIT Init
